@@ -409,6 +409,23 @@ class Ctx:
                     v["case"] = by_id[v["id"]]
                     confirmed.append(v)
             if len(confirmed) < len(bad[:200]):
+                # history-dependent behaviour (state carried from one call to the next): the failing
+                # cases alone pass, so replay the WHOLE sequence again in the same order; a deviation
+                # that recurs at the same case is the code's behaviour on that history
+                vp3 = os.path.join(self.work, "verdicts-%s-confirm-full.ndjson" % family)
+                self.harness([family, "replay", cp, vp3] + list(extra_args), timeout=timeout)
+                v3 = {v["id"]: v for v in self.read_ndjson(vp3)}
+                have = {v["id"] for v in confirmed}
+                for v in bad[:200]:
+                    w = v3.get(v["id"])
+                    if v["id"] not in have and w is not None and not w.get("ok"):
+                        v["case"] = by_id[v["id"]]
+                        v["history_dependent"] = True
+                        v["detail"] = "(only after the preceding cases of the run, not alone) " + str(v.get("detail", ""))
+                        confirmed.append(v)
+                if confirmed:
+                    log("%d of %d deviations recur only with the preceding cases replayed before them" % (sum(1 for v in confirmed if v.get("history_dependent")), len(bad[:200])))
+            if not confirmed:
                 raise Infra("%d deviations did not reproduce on a second run (%s) — flaky harness, no verdict" % (len(bad[:200]) - len(confirmed), family))
             # the rest (beyond 200) is reported unconfirmed-but-same-class only through signatures
             for v in bad[200:]:
